@@ -24,8 +24,12 @@ def model (f : List String) : String :=
   | [adaptor, _kind, _cat, write, vals] =>
     match ints? vals with
     | some l =>
-      let steps := if adaptor = "e" then enumerateSteps l.length else reverseSteps l.length
-      answer adaptor (write = "1") l steps
+      if adaptor = "er" then answer "e" false l.reverse (enumerateSteps l.length) |>.replace
+          (" after=" ++ intsStr l.reverse) (" after=" ++ intsStr l)
+      else
+      let steps := if adaptor = "e" then enumerateSteps l.length
+        else if adaptor = "ep" then enumeratePostSteps l.length else reverseSteps l.length
+      answer (if adaptor = "ep" then "e" else if adaptor = "rm" then "r" else adaptor) (write = "1") l steps
     | none => "bad-op"
   | _ => "bad-op"
 
@@ -36,8 +40,9 @@ def judge (f : List String) (ans : String) : String :=
   | [adaptor, kind, cat, write, vals] =>
     match ints? vals with
     | some l =>
-      let expSeen := if adaptor = "e" then
+      let expSeen := if adaptor = "e" || adaptor = "ep" then
           seenStr true ((List.range l.length).zip (l.map some))
+        else if adaptor = "er" then seenStr true ((List.range l.length).zip (l.reverse.map some))
         else seenStr false (l.reverse.map fun v => (0, some v))
       let expAfter := if write = "1" then l.map (· + 100) else l
       let feat := "\t" ++ adaptor ++ "-" ++ kind ++ "-" ++ cat ++ " len" ++ toString (min l.length 3) ++
